@@ -70,6 +70,10 @@ def results_equal(stmt, ri, rm, mode):
     cmd = stmt.split()[0]
     if "errorsonly=1" in stmt:
         return (ri[0] == "err") == (rm[0] == "err") and (ri[0] != "err" or ri == rm)
+    if rm == ("err", "Undefined"):
+        # the statistic does not exist (empty value set / no finite defined piece): the implementation
+        # either raises or answers NaN; the properties do not say which
+        return ri[0] == "err" or (ri[0] == "vals" and all(v is None for v in ri[1]))
     if ri[0] == "err" or rm[0] == "err":
         return ri == rm
     if cmd in ("frame", "rawframe", "views"):
